@@ -38,7 +38,7 @@ func init() {
 			}
 			return []runner.Phase{
 				{Name: "sessions", Variant: "plain", Cases: n, Run: c03case, CaseTimeout: 90 * time.Second,
-					Required: []string{"op_query", "op_execute", "op_batch", "op_prepare", "op_startup", "op_register", "op_auth_response", "v1", "v2", "v3", "v4", "v5", "compressed_requests", "named_values", "unset_values", "payloads", "objects_executed_again"}},
+					Required: []string{"op_query", "op_execute", "op_batch", "op_prepare", "op_startup", "op_register", "op_auth_response", "v1", "v2", "v3", "v4", "v5", "compressed_requests", "named_values", "unset_values", "payloads", "objects_executed_again", "queries_released_to_the_pool"}},
 				{Name: "inexpressible", Variant: "plain", Cases: n / 20, Run: c03inexpr, CaseTimeout: 60 * time.Second, Required: []string{"inexpressible_requests", "payload_before_v4"}},
 				{Name: "limits", Variant: "plain", Cases: 10, Shards: 5, Run: c03limits, CaseTimeout: 5 * time.Minute, Required: []string{"limit_cases"}},
 			}
@@ -481,6 +481,11 @@ func c03case(c *runner.Ctx, i int) {
 			} else if r.Intn(3) == 0 {
 				c03again(c, st, e, func() error { return q.Exec() })
 			}
+			if r.Intn(2) == 0 {
+				// back to the pool: a later sess.Query gets this object again, and must not inherit anything from it
+				q.Release()
+				c.Add("queries_released_to_the_pool", 1)
+			}
 			c.Add("op_query", 1)
 		case kind < 7: // PREPARE + EXECUTE
 			nv := r.Intn(6)
@@ -532,6 +537,10 @@ func c03case(c *runner.Ctx, i int) {
 				st.problem(fmt.Sprintf("C03:execute:v%d:exec-error", version), "prepared query failed: "+err.Error())
 			} else if r.Intn(3) == 0 {
 				c03again(c, st, e, func() error { return q.Exec() })
+			}
+			if r.Intn(2) == 0 {
+				q.Release()
+				c.Add("queries_released_to_the_pool", 1)
 			}
 			c.Add("op_execute", 1)
 			c.Add("op_prepare", 1)
